@@ -223,7 +223,7 @@ def gen_case(r, i, thorough):
     for rn in G["rules"]:
         if rq.chance(0.25):
             user[rn] = rq.choice(["plain", "eq_all"])
-    types = names + ["Nope"]
+    types = names + ["Nope", "object"]
     queries = []
     for _ in range(8):
         q = {"root": 0 if rq.chance(0.65) else rq.below(1000), "sel": gen_pred(rq, names, True), "typ": None,
@@ -237,6 +237,71 @@ def gen_case(r, i, thorough):
             "parent_attr": with_parent, "gen_objects": n,
             # known-finding class: loading can loop forever (get_model over cyclic `parent` references)
             "time_limit": 6 if with_parent else 120}
+
+
+# ------------------------------------------------------------------ systematic small models
+ENUM_GRAMMAR = ("N: '%N' name=ID '{' ('@o' o=T)? ('@k' '[' k*=T ']')? ('@r' r=[T])? ('@rs' '[' rs+=[T][','] ']')? '}';\n"
+                "M: '%M' name=ID '{' ('@k' '[' k*=T ']')? ('@r' r=[N])? '}';\nT: N | M;\n")
+ENUM_QUERIES = [
+    {"root": 0, "sel": {"k": "true"}, "typ": None, "sf": {"k": "true"}, "sfprim": True, "cf": False},
+    {"root": 0, "sel": {"k": "true"}, "typ": None, "sf": {"k": "true"}, "sfprim": True, "cf": True},
+    {"root": 0, "sel": {"k": "cls", "names": ["N"]}, "typ": None, "sf": {"k": "notcls", "names": ["M"]}, "sfprim": False, "cf": False},
+    {"root": 0, "sel": {"k": "idmod", "m": 2, "r": 0}, "typ": None, "sf": {"k": "idmod", "m": 3, "r": 1}, "sfprim": True, "cf": True},
+    {"root": 1, "sel": {"k": "true"}, "typ": None, "sf": {"k": "true"}, "sfprim": True, "cf": True},
+    {"root": 2, "sel": {"k": "true"}, "typ": {"name": "M", "form": "cls"}, "sf": {"k": "true"}, "sfprim": True, "cf": False},
+    {"root": 0, "sel": {"k": "true"}, "typ": {"name": "N", "form": "str"}, "sf": {"k": "cls", "names": ["N"]}, "sfprim": True, "cf": True},
+    {"root": 0, "sel": {"k": "true"}, "typ": {"name": "T", "form": "cls"}, "sf": {"k": "true"}, "sfprim": True, "cf": False},
+]
+
+
+def plane_trees(n):
+    """all ordered trees with n nodes, as nested lists of children"""
+    if n == 1:
+        return [[]]
+    out = []
+    for first in range(1, n):                       # size of the first child's subtree
+        for a in plane_trees(first):
+            for rest in plane_trees(n - first):     # the root with its remaining children
+                out.append([a] + rest)
+    return out
+
+
+def enum_cases(maxn):
+    cases = []
+    for n in range(1, maxn + 1):
+        for shape in plane_trees(n):
+            for variant in range(3):
+                counter = [0]
+                allnames = []
+
+                def emit(node, depth, anc):
+                    i = counter[0]
+                    counter[0] += 1
+                    name = "n%d" % i
+                    allnames.append(name)
+                    is_m = depth > 0 and ((variant == 1 and depth % 2 == 1) or (variant == 2 and i % 3 == 2))
+                    cls = "M" if is_m else "N"
+                    anc2 = anc + [(name, cls)]
+                    kids = [emit(c, depth + 1, anc2) for c in node]
+                    parts = ["%%%s %s {" % (cls, name)]
+                    if cls == "N" and kids and (i + variant) % 2 == 0:
+                        parts.append("@o " + kids.pop(0))
+                    if kids or i % 2:
+                        parts.append("@k [ %s ]" % " ".join(kids))
+                    nanc = [a for a, c in anc if c == "N"]
+                    if cls == "N":
+                        tgt = [name, anc[0][0] if anc else name, anc[-1][0] if anc else name][(i + variant) % 3]
+                        parts.append("@r " + tgt)
+                        if variant == 2 and len(anc) >= 2:
+                            parts.append("@rs [ %s , %s ]" % (anc[-2][0], name))
+                    elif nanc:
+                        parts.append("@r " + nanc[-1])
+                    parts.append("}")
+                    return " ".join(parts)
+                text = emit(shape, 0, [])
+                cases.append({"grammar": ENUM_GRAMMAR, "text": text, "user": {"M": "eq_all"} if variant == 1 else {},
+                              "types": ["N", "M", "T", "Nope", "object"], "queries": ENUM_QUERIES, "time_limit": 120})
+    return cases
 
 
 # ------------------------------------------------------------------ Coq side
@@ -439,6 +504,7 @@ def run(chk):
     chk.prove([])
     n = 1500 if chk.thorough else 300
     cases = load_corpus()
+    cases += enum_cases(6 if chk.thorough else 4)       # every ordered tree shape up to that many objects, 3 variants each
     for i in range(n):
         cases.append(gen_case(chk.rng.split(i), i, chk.thorough))
     outs = run_cases(cases)
